@@ -9,7 +9,7 @@
 import json, os, random, itertools, threading
 import vlib, engine_lib as el, resolve_lib as rl
 
-FIX = dict(FixF1="TRUE", FixF2="TRUE", FixF3="TRUE")
+FIX = dict(FixF1="TRUE", FixF2="TRUE", FixF3="TRUE", FixF13="TRUE")
 
 INV = {
     "C06": ["C06_Sound", "C06_CompleteSlice", "C06_SingleOne"],
@@ -160,6 +160,11 @@ def engine_order_phase(run, tier, wd, binary, rng):
         n = rng.choice([3, 4, 6])
         base = el.rand_scenario(rng, n, p_edge=rng.choice([0.3, 0.5]), fails=rng.choice([0, 0, 0.2]), lazies=rng.choice([0, 0.3]),
                                 wraps=rng.choice([0, 0, 0.3]), sid="C10-eng%d" % i)
+        if i % 3 == 2:
+            # candidates collected twice (second public collector registered), fan-in through slices into lazy, wrapped cycle
+            # members: the order in which a slice's members are created decides whether a stale version is noticed
+            base = el.rand_scenario(rng, n, p_edge=0.5, p_slice=0.7, lazies=0.5, wraps=0.5, sid="C10-eng%d" % i)
+            base["extra"] = True
         base["kseed"] = rng.randint(1, 2 ** 31)      # one edge realisation (= one set of component definitions) per scenario
         for k in range(4):
             s = dict(base)
